@@ -66,6 +66,25 @@ theorem C02_inputs (p : Program) (cfg : Cfg) (H : BodyFn) (hwf : WellFormed p = 
     heapOfLog p cfg H (run (graphOf p cfg) F again ts).log (.obs j f) = seqRun p cfg H (.obs j f) := by
   rw [C02_final p cfg H hwf hrf again ts hq]
 
+theorem seqRun_eq_list (p : Program) (cfg : Cfg) (H : BodyFn) :
+    (runOrderL (nodeDs p cfg H) (List.range (allInstances p).length) []).get = seqRun p cfg H := by
+  rw [get_runOrderL, get_nil]; rfl
+
+/-- **The named data.**  If in the sequential execution every input fed by a task holds what that task left in the named
+    flow (`namedOKB`, decidable, evaluated on every generated program), then in EVERY complete run the value a body sees in
+    such a flow is the content its named producer left in that flow. -/
+theorem C02_inputs_named (p : Program) (cfg : Cfg) (H : BodyFn) (hwf : WellFormed p = true)
+    (hrf : RaceFree (graphOf p cfg) (nodeDs p cfg H)) (hn : namedOKB p cfg H = true) (again : List Nat) (ts : List Tr)
+    (hq : quiescent (run (graphOf p cfg) F again ts)) (j f i sf : Nat) (hs : (j, f, i, sf) ∈ flowSources p cfg) :
+    heapOfLog p cfg H (run (graphOf p cfg) F again ts).log (.obs j f) =
+      heapOfLog p cfg H (run (graphOf p cfg) F again ts).log (.out i sf) := by
+  rw [C02_final p cfg H hwf hrf again ts hq]
+  unfold namedOKB at hn
+  simp only [List.all_eq_true, beq_iff_eq] at hn
+  have := hn (j, f, i, sf) hs
+  rw [seqRun_eq_list] at this
+  exact this
+
 /-- the executable check the driver evaluates on every generated program implies the hypothesis of `C02_final` -/
 theorem C02_racefree_of_check (p : Program) (cfg : Cfg) (H : BodyFn) (hwf : WellFormed p = true)
     (h : raceFreeB (graphOf p cfg) (nodeDs p cfg H) = true) : RaceFree (graphOf p cfg) (nodeDs p cfg H) :=
@@ -113,5 +132,7 @@ example : (run (graphOf ex {}) (fun _ _ => 0) [0, 0, 0, 1] exSched).pending = []
 set_option maxRecDepth 8000 in
 example : seqRun ex {} exH (.tile 0) = 1201 ∧ seqRun ex {} exH (.tile 1) = 1211 ∧ seqRun ex {} exH (.tile 5) = 1005 ∧
     seqRun ex {} exH (.obs 2 0) = seqRun ex {} exH (.out 0 0) := by decide
+set_option maxRecDepth 8000 in
+example : flowSources ex {} = [(2, 0, 0, 0), (3, 0, 1, 0)] ∧ namedOKB ex {} exH = true := by decide
 
 end ParsecVerif.C02
